@@ -160,6 +160,11 @@ class HeapMixin:
 
     # ---- attribute access ------------------------------------------------------------
     def getattr_of(self, base: V, attr: str, st: State, node) -> V:
+        if self.spec_mode and attr.startswith("__") and not attr.endswith("__"):
+            # contract expressions name a private field of *any* object the way that object's class writes it
+            bt = base.t.inner if isinstance(base.t, TOpt) else base.t
+            if isinstance(bt, TObj) and self.field_type(bt.cls, f"_{bt.cls.lstrip('_')}{attr}") is not None:
+                attr = f"_{bt.cls.lstrip('_')}{attr}"
         attr = self.mangle(attr)
         t = base.t
         if isinstance(t, TPy):
